@@ -26,7 +26,7 @@ OBJ_U = {"o1": "object", "o2": "object"}
 SIG_T = {"r": [], "p": ["t1"], "q": ["t1", "t1"], "m": ["object"], "s": ["t2"], "u": ["t1", "t1", "t3"]}
 FSIG_T = {"f": [], "g": ["t1"], "h": ["t1", "t1"], "k": ["t2"], "w": ["t1", "t1", "t3"]}
 PARENT = {"t1": "object", "t2": "t1", "t3": "object", "object": None}
-NUMERALS = ["0", "7", "-3", "2.5", "-0.25", "1e2", "2.5e-1", "12345.678"]
+NUMERALS = ["0", "7", "-3", "2.5", "-0.25", "1e2", "2.5e-1", "12345.678", "2.5e-7", "0.0000123456"]
 
 
 def sub(a, b):
@@ -117,6 +117,11 @@ def valid_problems(tier):
             yield {"kind": "valid", "typed": typed, "objects": objs, "decl": tag, "objs_text": otext,
                    "atoms": [["p", "o1"]], "fluents": {"f": "1", "g o1": "2", "g o2": "0", "h o1 o1": "0"},
                    "goals": [list(a) for a in sel], "numgoals": ng}
+    # goals made of numeric conditions only
+    for ng in ([NUM_GOALS[0]], [NUM_GOALS[1], NUM_GOALS[3]], list(NUM_GOALS)):
+        yield {"kind": "valid", "typed": True, "objects": dict(OBJ_T), "decl": "one-by-one",
+               "objs_text": " ".join(f"{n} - {t}" for n, t in OBJ_T.items()), "atoms": [["p", "o1"]],
+               "fluents": {"f": "1", "g o1": "2", "g o2": "0", "h o1 o1": "0"}, "goals": [], "numgoals": ng}
     # object-table variants (typed): grouped, trailing untyped, subtype objects
     for tag, otext, objs in (
         ("grouped", "o1 o4 - t1 o2 - t2 o3 - t3", {"o1": "t1", "o4": "t1", "o2": "t2", "o3": "t3"}),
